@@ -499,6 +499,8 @@ package eval
 //@   requires [parser] (PARSER $p)
 //@ func parser.parseConfig C06 C02
 //@   requires [parser] (PARSER $p)
+//@   loop 2 (rangeindex)
+//@     exit [every-pair-of-the-line-processed] (>= (+ $rangeindex 1) (rangelen))
 //@ func parser.parseAstTree C06 C14
 //@   requires [parser] (PARSER $p)
 //@   loop 1 (rangeindex)
@@ -710,6 +712,25 @@ package eval
 //@              :pattern ((SS $t (+ k 1)))))
 //@         (= (AO $t) (and (<= nc 127) (forall ((j Int)) (! (=> (and (<= (off (fld (ref astNode $t) children)) j) (< j (+ (off (fld (ref astNode $t) children)) nc))) (AO (select (arr (fld (ref astNode $t) children)) j))) :pattern ((select (arr (fld (ref astNode $t) children)) j))))))))
 //@ macro (ASTOK) (forall ((t Int)) (! (=> (inTree t) (ASTLOCAL t)) :pattern ((inTree t))))
+
+// C02 / C01 — the fast-operator rewrite: a node's kind changes only from operator to fastOperator, only on the
+// node of the subtree root at hand, and only when that root has exactly two operands that are both plain leaves
+// (constant / variable: their node.value IS the operand or the variable name); every other flag bit is kept.
+//@ macro (ASTSHAPE) (forall ((t Int)) (! (=> (inTree t) (and (not (= t 0)) (not (= (fld (ref astNode t) node) 0))
+//@      (forall ((j Int)) (! (=> (and (<= (off (fld (ref astNode t) children)) j) (< j (+ (off (fld (ref astNode t) children)) (len (fld (ref astNode t) children)))))
+//@                               (inTree (select (arr (fld (ref astNode t) children)) j)))
+//@                           :pattern ((select (arr (fld (ref astNode t) children)) j))))))
+//@      :pattern ((inTree t))))
+//@ func optimizeFastEvaluation C02 C01 C06
+//@   requires [tree] (and (inTree $root) (ASTSHAPE))
+//@   loop 2 (rangeindex)
+//@     invariant [leaves-so-far] (forall ((j Int)) (! (=> (and (<= 0 j) (<= j $rangeindex)) (let ((k (KIND (fld (CHILD $root j) node)))) (or (= k 1) (= k 2)))) :pattern ((CHILD $root j))))
+//@   storesite node.flag [fast-only-for-two-leaf-operands]
+//@      (and (= (div $val 8) (div (fld $base flag) 8))
+//@           (=> (not (= (mod $val 8) (KIND $base)))
+//@               (and (= (mod $val 8) 4) (= (KIND $base) 3) (= $base (fld $root node)) (= (len (fld $root children)) 2)
+//@                    (let ((k0 (KIND (fld (CHILD $root 0) node))) (k1 (KIND (fld (CHILD $root 1) node))))
+//@                       (and (or (= k0 1) (= k0 2)) (or (= k1 1) (= k1 2)))))))
 
 //@ func check C09 C06
 //@   requires [tree] (and (inTree $root) (ASTOK))
